@@ -7,6 +7,7 @@ from typing import TYPE_CHECKING, Any
 
 from xknx.core.value_reader import ValueReader
 from xknx.dpt import DPTArray, DPTBase, DPTBinary
+from xknx.exceptions import ConversionError
 from xknx.telegram import Telegram
 from xknx.telegram.address import DeviceAddressableType, parse_device_group_address
 from xknx.telegram.apci import GroupValueRead, GroupValueResponse, GroupValueWrite
@@ -100,10 +101,17 @@ def _parse_payload(
     value: Any,
     value_type: DPTParsable | type[DPTBase] | None = None,
 ) -> DPTBinary | DPTArray:
+    payload: DPTBinary | DPTArray
     if isinstance(value, DPTArray | DPTBinary):
-        return value
-    if transcoder := _parse_dpt(value_type):
-        return transcoder.to_knx(value)
-    if isinstance(value, int):
-        return DPTBinary(value)
-    return DPTArray(value)
+        payload = value
+    elif transcoder := _parse_dpt(value_type):
+        payload = transcoder.to_knx(value)
+    elif isinstance(value, int):
+        payload = DPTBinary(value)
+    else:
+        payload = DPTArray(value)
+    if isinstance(payload, DPTArray) and len(payload.value) > 253:
+        raise ConversionError(
+            f"Payload too long for a single frame: {len(payload.value)} octets"
+        )
+    return payload
